@@ -22,6 +22,8 @@ pub struct TypeRow {
     pub keywords: &'static [&'static str],
     /// keyword matching is documented as case-insensitive (then case variants are expected to be accepted)
     pub case_insensitive: bool,
+    /// embedded-keyword rows: only strings passing the filter fit the keyword's slot in the composite
+    pub filter: Option<fn(&str) -> bool>,
 }
 
 #[derive(Clone, Serialize, Deserialize, PartialEq, Debug)]
@@ -107,7 +109,7 @@ impl Prop for C18 {
         "exploration"
     }
     fn rule(&self, _t: Tier) -> String {
-        "per typed value family: (1) every value of the family (enumerations exhaustively; records as the full product of small token / size menus incl. 0 and usize::MAX; VCS locations x branch x subpath) is printed and parsed back: parse(print(v)) == v; (2) every canonical text of the row: print(parse(s)) == s; (3) keyword types: every string over (up to 8 keyword letters + '-', ' ', 'A') up to length 4 (thorough 5) and the complete edit-distance-1 neighbourhood (deletions, substitutions, insertions, single case flips) of every keyword must be rejected unless it is a keyword (case variants are accepted only where documented); all cases distinct per row; non-trivial = all".into()
+        "per typed value family: (1) every value of the family (enumerations exhaustively; records as the full product of small token / size menus incl. 0 and usize::MAX; VCS locations x branch x subpath) is printed and parsed back: parse(print(v)) == v; (2) every canonical text of the row: print(parse(s)) == s; (3) keyword types: every string over (up to 8 keyword letters + '-', ' ', 'A') up to length 4 (thorough 5) and the complete edit-distance-1 neighbourhood (deletions, substitutions, insertions, single case flips) of every keyword must be rejected unless it is a keyword (case variants are accepted only where documented); the same reject sets are replayed with the string in the keyword's place inside composite values (changes-file and package-list entries, the Priority / Multi-Arch / Types / By-Hash fields of the lossy typed paragraphs, the operator of a relation), whose own readers must reject it; all cases distinct per row; non-trivial = all".into()
     }
     fn bounds(&self, t: Tier) -> Value {
         let rs = rows();
@@ -134,19 +136,22 @@ impl Prop for C18 {
             let ar: Vec<&str> = alpha.iter().map(|s| s.as_str()).collect();
             let sp = SeqSpace::new(&ar, t.pick(4, 5), 0);
             let mut seen = std::collections::HashSet::new();
+            let fits = |s: &str| r.filter.map(|g| g(s)).unwrap_or(true);
             sp.explore(0, &mut |s, _| {
                 seen.insert(s.to_string());
-                f(&C18Case::Reject { ty: r.ty.to_string(), s: s.to_string() });
+                if fits(s) {
+                    f(&C18Case::Reject { ty: r.ty.to_string(), s: s.to_string() });
+                }
             });
             for k in r.keywords {
                 // the keyword itself (must be accepted) and its upper-case form (accepted only where documented)
                 for n in [k.to_string(), k.to_uppercase()] {
-                    if seen.insert(n.clone()) {
+                    if seen.insert(n.clone()) && fits(&n) {
                         f(&C18Case::Reject { ty: r.ty.to_string(), s: n });
                     }
                 }
                 for n in neighbourhood(k, &alpha) {
-                    if seen.insert(n.clone()) {
+                    if seen.insert(n.clone()) && fits(&n) {
                         f(&C18Case::Reject { ty: r.ty.to_string(), s: n });
                     }
                 }
